@@ -10,7 +10,9 @@
 -/
 import Nq.Lemmas.CleanL
 import Nq.Lemmas.SpawnL
+import Nq.Lemmas.SpawnStreamL
 import Nq.Lemmas.SendL
+import Nq.Lemmas.SendRefL
 
 namespace Nq.Props.C18
 open Nq Nq.Spec.TB
@@ -103,19 +105,56 @@ theorem C18_clean_accepts (ds : Bytes) (plan : List Nat) (hne : ds ≠ []) (hd :
   · rw [key TODO rfl [fmtqfn INTD (decVal ds) false, fmtqfn TODO (decVal ds) false] (by simp [targets])]
     simp only [unlinks, hp0, hp1, if_true]
 
-/-- **The whole input stream**: for every byte stream on the request descriptor and every behaviour
-of `unlink`, the program's event trace consists, request by request in order, of unlinks of files
-that request names followed by exactly one status byte (`x` only without unlinks), and nothing else
-but its periodic look at `pid/`.  (`cleanOK` is the oracle the driver runs on the real program.) -/
-theorem C18_clean_stream (input : Bytes) (plan : List Nat) :
-    cleanOK (splitReqs [] input) (run input plan) = true :=
-  cleanOK_runReqs _ _ _
+/-- **`cleanuppid()` removes only old `pid/` files**: whatever `now()`, `readdir` and `stat` present,
+every path the periodic sweep unlinks is `pid/<name>` for an entry `<name>` of the directory that is
+not `.`/`..`, whose `stat` succeeded and whose access time lies at least OSSIFIED (36 h) before
+`now()` — never a path outside `pid/`-plus-a-listed-name, never a fresh entry. -/
+theorem C18_clean_pid (sc : Scan) :
+    ∀ p ∈ paths (cleanuppid sc), ∃ es e, sc.ents = some es ∧ e ∈ es ∧ p = PIDDIR ++ e.name ∧
+      e.name ≠ DOT1 ∧ e.name ≠ DOT2 ∧ ∃ t, e.atime = some t ∧ t + OSSIFIED ≤ sc.now := by
+  intro p hp
+  unfold cleanuppid at hp
+  cases h : sc.ents with
+  | none => simp [h, paths] at hp
+  | some es =>
+    simp only [h, paths, paths_append, paths_unlinks, List.append_nil] at hp
+    obtain ⟨e, he, r⟩ := pidUnlinks_sound sc.now es p hp
+    exact ⟨es, e, rfl, he, r⟩
+
+/-- complement: an entry that is not `.`/`..`, can be `stat`ed and is at least OSSIFIED old is
+removed by the sweep; and the sweep answers nothing on the status channel. -/
+theorem C18_clean_pid_complete (sc : Scan) (es : List PidEnt) (e : PidEnt) (h : sc.ents = some es) (he : e ∈ es)
+    (h1 : e.name ≠ DOT1) (h2 : e.name ≠ DOT2) (t : Nat) (ha : e.atime = some t) (ht : t + OSSIFIED ≤ sc.now) :
+    PIDDIR ++ e.name ∈ paths (cleanuppid sc) ∧ statuses (cleanuppid sc) = [] := by
+  refine ⟨?_, statuses_cleanuppid sc⟩
+  unfold cleanuppid
+  simp only [h, paths, paths_append, paths_unlinks, List.append_nil]
+  exact pidUnlinks_complete sc.now es e he h1 h2 t ha ht
+
+/-- **The whole input stream**: for every byte stream on the request descriptor, every behaviour
+of `unlink` and everything `pid/` may contain, the program's event trace consists, request by
+request in order, of (at most one) `cleanuppid()` window that removes only old `pid/` entries of
+the directory it was shown, then unlinks of files that request names followed by exactly one status
+byte (`x` only without unlinks), and nothing else.  (`cleanOK` is the oracle the driver runs on the
+real program.) -/
+theorem C18_clean_stream (input : Bytes) (plan : List Nat) (scans : List Scan) :
+    cleanOK (splitReqs [] input) scans (run input plan scans) = true :=
+  cleanOK_runReqs _ _ _ _
+
+/-- **Never any other path** (the flat form of the stream theorem): every path the program ever
+passes to `unlink` during a whole run is one of the two files named by a complete request of the
+input (`allowed`, empty unless the request is valid) or `pid/<name>` for an entry at least OSSIFIED
+old of one of the directory listings it was shown. -/
+theorem C18_clean_paths (input : Bytes) (plan : List Nat) (scans : List Scan) :
+    ∀ p ∈ paths (run input plan scans),
+      (∃ q ∈ splitReqs [] input, p ∈ allowed q) ∨ (∃ sc ∈ scans, pidOld sc p = true) :=
+  paths_runReqs _ _ _ _
 
 end clean
 
 /-! ## qmail-lspawn / qmail-rspawn (spawn.c) -/
 section spawn
-open Nq.Spawn Nq.Lemmas.SpawnL Nq.Gen.SpawnTexts
+open Nq.Spawn Nq.Lemmas.SpawnL Nq.Lemmas.SpawnStreamL Nq.Gen.SpawnTexts
 
 /-- **The only path opened is the message id of the command, and it is a well-formed queue file
 name**: non-empty, at most 99 bytes, decimal digits and `/` only, not starting with `/` (so never
@@ -171,17 +210,35 @@ theorem C18_spawn_one_cmd (st : St) (hl : st.slots.length = Nq.Gen.auto_spawn) :
     (docmd st).1.slots.length = st.slots.length :=
   docmd_balance st hl
 
-/-- **One report per exited child**: when the child of a slot in use exits, exactly one report is
-written, it carries the slot number, and the slot is freed:  reports written + children running
-is unchanged. -/
-theorem C18_spawn_one_exit (k : Kind) (st : St) (slot wstat : Nat) (out : Bytes)
-    (h : st.slots.getD slot none = some out) :
-    childExit k st slot wstat =
-      ({ st with slots := st.slots.set slot none }, [.report slot (reportBody k wstat out)]) ∧
-    usedCount { st with slots := st.slots.set slot none } + 1 = usedCount st := by
-  unfold childExit
-  simp only [h]
-  exact ⟨trivial, usedCount_set_none st.slots slot out h⟩
+/-- **One report per exited child** (no hypothesis on the slot): a child-exit event for `slot`
+changes no other slot (`slots.set slot none`), keeps  reports written + children running  unchanged,
+writes a report only if the slot was in use — then exactly one — and every report it writes carries
+the number of that slot and a body that starts with K/Z/D and has no NUL.  (The former first
+conjunct, which only restated the definition of `childExit`, is replaced by these consequences.) -/
+theorem C18_spawn_one_exit (k : Kind) (st : St) (slot wstat : Nat) (hl : st.slots.length = Nq.Gen.auto_spawn) :
+    (childExit k st slot wstat).1.slots = st.slots.set slot none ∧
+    nReports (childExit k st slot wstat).2 + usedCount (childExit k st slot wstat).1 = usedCount st ∧
+    nReports (childExit k st slot wstat).2 = (if slotUsed st.slots slot then 1 else 0) ∧
+    (∀ d b, Ev.report d b ∈ (childExit k st slot wstat).2 → d = slot ∧ textOK b = true) ∧
+    (∀ e ∈ (childExit k st slot wstat).2, ∃ d b, e = Ev.report d b) := by
+  obtain ⟨c1, _, _, _, c5⟩ := childExit_balance k st slot wstat hl
+  refine ⟨c5, c1, ?_, ?_, ?_⟩
+  · unfold childExit slotUsed
+    cases h : st.slots.getD slot none <;> simp [nReports, reportsOf]
+  · intro d b hb
+    unfold childExit at hb
+    cases h : st.slots.getD slot none with
+    | none => simp only [h] at hb; cases hb
+    | some out =>
+      simp only [h, List.mem_singleton, Ev.report.injEq] at hb
+      exact ⟨hb.1, hb.2 ▸ reportBody_textOK k wstat out⟩
+  · intro e he
+    unfold childExit at he
+    cases h : st.slots.getD slot none with
+    | none => simp only [h] at he; cases he
+    | some out =>
+      simp only [h, List.mem_singleton] at he
+      exact ⟨_, _, he⟩
 
 /-- **A child's report carries only the child's own output**: the body written for an exited child
 is either one of the fixed texts of `report()` (extracted from the source), or a status letter
@@ -204,6 +261,25 @@ automaton; `C18_spawn_grammar` says what it counts. -/
 theorem C18_spawn_one (k : Kind) (plan : List Nat) (script : List Op) :
     nReports (run k plan script).2 = countCmds .delnum (inputOf script) ∧ usedCount (run k plan script).1 = 0 :=
   run_balance k plan script
+
+/-- **The open/spawn discipline over a whole session** (the oracle `opensOK` the driver runs on the
+real programs): for every script of events — any bytes on descriptor 0 in any chunking, children
+writing and exiting in any order, any file-system behaviour `plan` — with `cmds` the complete
+commands of the input stream according to the independent grammar `parseCmds`: every path opened is
+the message id of one of these commands and satisfies `okPath`; `spawn()` is called only directly
+after the open of a file that is regular and owned by the queue user, in the slot and with the
+sender and recipient of a command naming that file; after the open of any other file the very next
+event is a `Z` report for a command naming it.  In particular `getcmd()` always hands `docmd()` a
+message id that is NUL-free with exactly one NUL appended (the invariant `SpawnStreamL.Rel`). -/
+theorem C18_spawn_stream (k : Kind) (plan : List Nat) (script : List Op) :
+    opensOK (parseCmds ((inputOf script).length + 1) (inputOf script)) plan (run k plan script).2 = true :=
+  run_opensOK k plan script _ (Nat.lt_succ_self _)
+
+/-- the command grammar of the oracle does not depend on its fuel once that exceeds the length of the
+stream, and it counts what `countCmds` counts: `parseCmds` and the model agree on the framing -/
+theorem C18_spawn_cmds (f1 f2 : Nat) (s : Bytes) (h1 : s.length < f1) (h2 : s.length < f2) :
+    parseCmds f1 s = parseCmds f2 s :=
+  parseCmds_fuel f1 f2 s h1 h2
 
 /-- a delivery-number byte followed by three NUL-free, NUL-terminated fields is exactly one command,
 after which the reader is at the start of the next one; an incomplete tail counts for nothing -/
@@ -263,18 +339,28 @@ theorem C18_send_flip (env : Env) (st : St) (dl : Bytes) (sl : Slot)
 
 /-- **Every byte stream on a report descriptor** (`C18_send_robust` of the design): starting from
 an empty report line, for all bytes `s`, all worlds (slots, jobs) and all system-call behaviour,
-(1) the records marked are exactly those the stream asks for according to the independent
-reference reader `refMarks` — the same files in the same order, a mark being lost only when its
-`open_write` fails — (`sendStrict`, the oracle run on the real code); (2) they form a sub-multiset
-of the deliveries in flight at the start: a record is only ever marked for a delivery that was in
-flight, and at most once per such delivery — whatever out-of-range, unused, duplicated or mangled
-reports the stream contains; (3) every write into a recipient file is the single byte `D` of such
-a mark. -/
+(1) the records marked are exactly those the stream asks for according to the *declarative*
+reference `refMarksDecl` (`Spec/ReportRef.lean`: the stream is cut by the writer's grammar
+`delnum text NUL`, no buffer, no REPORTMAX, no byte loop; the first report naming a delivery in
+flight decides it, every other report is ignored; the slot table is never mutated) — the same files
+in the same order, a mark being lost only when its `open_write` fails (`sendStrictDecl`, the oracle
+run on the real code); (2) they form a sub-multiset of the deliveries in flight at the start: a
+record is only ever marked for a delivery that was in flight, and at most once per such delivery —
+whatever out-of-range, unused, duplicated or mangled reports the stream contains; (3) every write
+into a recipient file is the single byte `D` of such a mark. -/
 theorem C18_send_robust (env : Env) (st : St) (s : Bytes) (h0 : st.drev = []) (h1 : st.dlen = 0) :
-    sendStrict env.chan st.jobs st.slots s (feed env st s).2 = true ∧
+    sendStrictDecl env.chan st.jobs st.slots s (feed env st s).2 = true ∧
     subMultiset (marksOf (feed env st s).2) (inflight env.chan st.jobs st.slots) = true ∧
     writesOK (feed env st s).2 = true :=
-  ⟨(feed_stream env st s h0 h1).1, (feed_stream env st s h0 h1).2, feed_writesOK env st s⟩
+  ⟨Nq.Lemmas.SendRefL.feed_stream_decl env st s h0 h1, (feed_stream env st s h0 h1).2, feed_writesOK env st s⟩
+
+/-- the step-based reader `refMarks` (which shares the model's framing: REPORTMAX cut, `n > 1`
+trigger, slot table update) and the declarative reader agree on every stream — so the REPORTMAX
+truncation can never change which delivery a report names or its status letter (REPORTMAX ≥ 2 is
+the only fact about the constant that is used) -/
+theorem C18_send_reference (c : Nat) (jobs : List Job) (slots : List (Option Slot)) (s : Bytes) :
+    refMarks c jobs slots s = refMarksDecl c jobs slots s :=
+  Nq.Lemmas.SendRefL.refMarks_eq_decl c jobs slots s
 
 /- Still by oracle only: the bounce half of `sendOK` (bounce appends form a sub-multiset of the
    in-flight messages' bounce files) over a whole stream; `C18_send_flip` is its per-report step. -/
